@@ -161,6 +161,7 @@ func init() {
 		ev["r"], ev["s"], ev["err"] = B(nil), B(nil), "unset"
 		ev["pubx"], ev["puby"], ev["puberr"] = B(nil), B(nil), "unset"
 		ev["vok"], ev["verr"], ev["stage"] = false, "unset", "derive"
+		ev["vok2"], ev["sv_ins"], ev["sv_ins_after"] = false, []B{}, []B{}
 		defer func() { ev["reads"] = sr.log }()
 		var pad [32]byte
 		copy(pad[32-len(priv):], priv) // the signer accepts shorter encodings; DerivePublic wants 32 bytes
@@ -173,6 +174,9 @@ func init() {
 		var r, s []byte
 		kind := c.str("kind")
 		e, za, msg, id := c.bytes("e"), c.bytes("za"), c.bytes("msg"), c.bytes("id")
+		before := []B{B(cp(e)), B(cp(za)), B(cp(msg)), B(cp(id)), B(cp(priv))}
+		ev["sv_ins"] = before
+		defer func() { ev["sv_ins_after"] = []B{B(cp(e)), B(cp(za)), B(cp(msg)), B(cp(id)), B(cp(priv))} }()
 		switch kind {
 		case "hashed":
 			r, s, err = sm2.SignHashed(sr, priv, e)
@@ -195,7 +199,18 @@ func init() {
 		case "id":
 			ok, err = sm2.Verify(id, px, py, msg, r, s)
 		}
-		ev["vok"], ev["verr"], ev["stage"] = ok, errStr(err), "done"
+		ev["vok"], ev["verr"], ev["stage"] = ok, errStr(err), "verify2"
+		// the same call again on the same buffers (a caller keeps its ZA / message / signature slices)
+		ok2 := false
+		switch kind {
+		case "hashed":
+			ok2, _ = sm2.VerifyHashed(px, py, e, r, s)
+		case "za":
+			ok2, _ = sm2.VerifyZa(px, py, za, msg, r, s)
+		case "id":
+			ok2, _ = sm2.Verify(id, px, py, msg, r, s)
+		}
+		ev["vok2"], ev["stage"] = ok2, "done"
 	})
 	register("sm2.verify", func(ctx *Ctx, c Cmd, ev Ev) {
 		px, py, r, s := c.bytes("pubx"), c.bytes("puby"), c.bytes("r"), c.bytes("s")
